@@ -10,8 +10,13 @@
      elaborate_context  : manager -> list of effects on the Context (executed in order)
      unwrap_context     : manager -> None | PRUNE | another manager | raise
      unwrap_context_generator.registry : code object -> the same four results
-   Frames are numbers too ([fcode] gives the code object a frame runs); an extracted Stack is
-   abstracted to the list of its frames.  Every call of a user-registered hook is logged
+   Frames are numbers too ([fcode] gives the code object a frame runs, [fctx] the managers of the
+   contexts that extracting the frame with with_contexts=True records on it); an extracted
+   Stack is abstracted to the list of its frames, each with the objs of its recorded contexts.
+   A registered unwrap_context_generator hook either ignores the Frame it is given or returns
+   `frame.contexts[0].obj` when the Frame carries contexts ([gctx0]); the contexts it saw are
+   part of its log entry.  Managers held open inside a generator body are inert (no hooks),
+   so the nested fill_context on them is invisible.  Every call of a user-registered hook is logged
    together with the extract options in force during the call.  The loop bound is a field of
    the configuration; generated cases and the theorems instantiate it with the constant
    regenerated from the source (gen/SrcFacts.context_guard). *)
@@ -36,9 +41,12 @@ Inductive eff :=
   | ESetObj (o : nat)
   | ERaise.
 
+(* an extracted Frame: python frame, objs of the Contexts recorded in frame.contexts *)
+Definition fobs := (nat * list nat)%type.
+
 Record ctx := {
   obj : nat;
-  inner : option (list nat);      (* inner_stack: None | frames of the Stack *)
+  inner : option (list fobs);     (* inner_stack: None | frames of the Stack *)
   children : list nat;
   hidden : bool;
   descr : option (list atom);
@@ -61,7 +69,9 @@ Record cfg := {
   elabt : nat -> list eff;
   unwrapt : nat -> ures;
   fcode : nat -> nat;                 (* code object run by a frame *)
+  fctx : nat -> list nat;             (* managers of the contexts active in a frame *)
   greg : nat -> option ures;          (* unwrap_context_generator.registry *)
+  gctx0 : nat -> bool;                (* that hook returns frame.contexts[0].obj if there is one *)
   guard : nat;                        (* the `range(100)` of fill_context *)
   restores : bool                     (* ExtractOptions.push restores in `finally` *)
 }.
@@ -69,7 +79,7 @@ Record cfg := {
 Inductive ev :=
   | VElab (m : nat) (o : opts)
   | VUnwrap (m : nat) (o : opts)
-  | VGen (code f : nat) (inner_none : bool) (o : opts).
+  | VGen (code f : nat) (inner_none : bool) (cx : list nat) (o : opts).
 
 (* exceptions leaving fill_context *)
 Inductive who := WElab (m : nat) | WUnwrap (m : nat) | WGen (code : nat).
@@ -83,7 +93,7 @@ Inductive outcome :=
 
 Definition set_obj (c : ctx) (o : nat) : ctx :=
   {| obj := o; inner := inner c; children := children c; hidden := hidden c; descr := descr c; exiting := exiting c |}.
-Definition set_inner (c : ctx) (s : option (list nat)) : ctx :=
+Definition set_inner (c : ctx) (s : option (list fobs)) : ctx :=
   {| obj := obj c; inner := s; children := children c; hidden := hidden c; descr := descr c; exiting := exiting c |}.
 Definition set_children (c : ctx) (k : list nat) : ctx :=
   {| obj := obj c; inner := inner c; children := k; hidden := hidden c; descr := descr c; exiting := exiting c |}.
@@ -107,35 +117,46 @@ Fixpoint apply_effs (l : list eff) (c : ctx) : ctx * bool :=
         | EAppDescr d => set_descr c (app_descr (descr c) (ATag d))
         | ESetChildren k => set_children c k
         | EAppChild k => set_children c (children c ++ [k])
-        | ESetInner s => set_inner c s
+        | ESetInner s => set_inner c (option_map (map (fun f => (f, []))) s)   (* hand-made Frames: no contexts *)
         | ESetObj o => set_obj c o
         | ERaise => c
         end
   end.
 
-(* _glue.elaborate_generatorbased_contextmanager *)
-Definition gcm_elab (cf : cfg) (m : nat) (c : ctx) : ctx :=
+Definition wc_of (o : opts) : bool := match o with Some (w, _) => w | None => false end.
+
+(* _glue.elaborate_generatorbased_contextmanager; extract_child(mgr.gen) records the contexts
+   of each frame iff with_contexts is in force *)
+Definition gcm_elab (cf : cfg) (o : opts) (m : nat) (c : ctx) : ctx :=
   let a := mattrs cf m in
-  let c1 := if exiting c then c else set_inner c (Some (gframes a)) in
+  let c1 := if exiting c then c
+            else set_inner c (Some (map (fun f => (f, if wc_of o then fctx cf f else [])) (gframes a))) in
   set_descr c1 (Some [if hasfunc a then AGcmNew (code a) m else AGcmEnt (code a)]).
 
 (* elaborate_context(context.obj, context): new context, log (newest first), raised? *)
 Definition elab_step (cf : cfg) (o : opts) (c : ctx) (log : list ev) : ctx * list ev * bool :=
   let m := obj c in
   let a := mattrs cf m in
-  if gcm a then (gcm_elab cf m c, log, false)
+  if gcm a then (gcm_elab cf o m c, log, false)
   else if hooked a then
     let '(c', r) := apply_effs (elabt cf m) c in (c', VElab m o :: log, r)
   else (c, log, false).
 
 (* ---------- unwrap_context ---------- *)
 
-(* unwrap_context_generator(frame, context): dispatch on the code object of [f] *)
-Definition gen_hook (cf : cfg) (o : opts) (c : ctx) (f : nat) (log : list ev) : ures * list ev * option who :=
+(* what a registered hook answers when handed a Frame whose contexts have objs [cx] *)
+Definition gverdict (cf : cfg) (cd : nat) (cx : list nat) (r : ures) : ures :=
+  if gctx0 cf cd then match cx with x :: _ => UTo x | [] => r end else r.
+
+(* unwrap_context_generator(frame, context): dispatch on the code object of [f]; [cx] = objs of
+   frame.contexts *)
+Definition gen_hook (cf : cfg) (o : opts) (c : ctx) (f : nat) (cx : list nat) (log : list ev)
+  : ures * list ev * option who :=
   match greg cf (fcode cf f) with
   | None => (UNone, log, None)                   (* default implementation *)
-  | Some r =>
-      let log' := VGen (fcode cf f) f (match inner c with None => true | Some _ => false end) o :: log in
+  | Some r0 =>
+      let r := gverdict cf (fcode cf f) cx r0 in
+      let log' := VGen (fcode cf f) f (match inner c with None => true | Some _ => false end) cx o :: log in
       (r, log', match r with URaise => Some (WGen (fcode cf f)) | _ => None end)
   end.
 
@@ -146,11 +167,11 @@ Definition gcm_unwrap (cf : cfg) (o : opts) (m : nat) (c : ctx) (log : list ev) 
   | None => (UNone, log, None)
   | Some _ =>
       match inner c with
-      | Some (f :: _) => gen_hook cf o c f log
+      | Some ((f, cx) :: _) => gen_hook cf o c f cx log
       | Some [] => (UNone, log, None)
       | None =>
           match gframes a with
-          | f :: _ => gen_hook cf o c f log         (* extract_outermost(mgr.gen) *)
+          | f :: _ => gen_hook cf o c f (fctx cf f) log   (* extract_outermost(mgr.gen): with_contexts=True *)
           | [] => (UNone, log, None)                (* RuntimeError "no frames" swallowed *)
           end
       end
@@ -220,15 +241,18 @@ Definition gcm_attr (cd : nat) (fr : list nat) (hf : bool) : mattr :=
   {| gcm := true; code := cd; gframes := fr; hasfunc := hf; hooked := false; eqprune := false |}.
 
 Definition mkcfg (a : list (nat * mattr)) (e : list (nat * list eff)) (u : list (nat * ures))
-           (fc : list (nat * nat)) (g : list (nat * ures)) (gd : nat) (rs : bool) : cfg :=
+           (fc : list (nat * nat)) (fx : list (nat * list nat)) (g : list (nat * ures)) (g0 : list nat)
+           (gd : nat) (rs : bool) : cfg :=
   {| mattrs := lookup (syn_attr false false) a;
      elabt := lookup [] e;
      unwrapt := lookup UNone u;
      fcode := lookup 4999 fc;
+     fctx := lookup [] fx;
      greg := fun cd => lookup None (map (fun p => (fst p, Some (snd p))) g) cd;
+     gctx0 := fun cd => mem_nat cd g0;
      guard := gd; restores := rs |}.
 
-Definition mkctx (o : nat) (i : option (list nat)) (k : list nat) (h : bool)
+Definition mkctx (o : nat) (i : option (list fobs)) (k : list nat) (h : bool)
            (d : option (list atom)) (x : bool) : ctx :=
   {| obj := o; inner := i; children := k; hidden := h; descr := d; exiting := x |}.
 
@@ -249,8 +273,10 @@ Definition atom_eqb (a b : atom) : bool :=
 
 Definition nats_eqb := list_eqb Nat.eqb.
 
+Definition fobs_eqb (a b : fobs) : bool := (fst a =? fst b) && nats_eqb (snd a) (snd b).
+
 Definition ctx_eqb (a b : ctx) : bool :=
-  (obj a =? obj b) && option_eqb nats_eqb (inner a) (inner b) && nats_eqb (children a) (children b)
+  (obj a =? obj b) && option_eqb (list_eqb fobs_eqb) (inner a) (inner b) && nats_eqb (children a) (children b)
   && Bool.eqb (hidden a) (hidden b) && option_eqb (list_eqb atom_eqb) (descr a) (descr b)
   && Bool.eqb (exiting a) (exiting b).
 
@@ -260,7 +286,7 @@ Definition opts_eqb : opts -> opts -> bool :=
 Definition ev_eqb (a b : ev) : bool :=
   match a, b with
   | VElab m o, VElab m' o' | VUnwrap m o, VUnwrap m' o' => (m =? m') && opts_eqb o o'
-  | VGen c f i o, VGen c' f' i' o' => (c =? c') && (f =? f') && Bool.eqb i i' && opts_eqb o o'
+  | VGen c f i x o, VGen c' f' i' x' o' => (c =? c') && (f =? f') && Bool.eqb i i' && nats_eqb x x' && opts_eqb o o'
   | _, _ => false
   end.
 
